@@ -1,4 +1,5 @@
 void harness(void) {
+  VERIF_PROLOGUE();
   size_t input_len;
   left_subtree_len(input_len);
   VERIF_REACHABLE();
